@@ -1,7 +1,6 @@
 package outputs
 
 import (
-	"context"
 	"fmt"
 	"os"
 	"sort"
@@ -19,17 +18,22 @@ import (
 
 // script is the JSON-marshallable description of one executed case.
 type script struct {
-	Workdir     string   `json:"workdir"`
-	Paths       []string `json:"output_paths"`
-	LegacyFiles []string `json:"output_files,omitempty"`
-	LegacyDirs  []string `json:"output_directories,omitempty"`
-	Format      string   `json:"format"`
-	Force       bool     `json:"force,omitempty"`
-	Backend     string   `json:"backend,omitempty"`
-	Initial     []string `json:"input_root,omitempty"`
-	Produced    []string `json:"produced,omitempty"`
-	Outcome     string   `json:"outcome,omitempty"`
-	IOError     bool     `json:"io_error_during_run,omitempty"`
+	Workdir     string       `json:"workdir"`
+	Paths       []string     `json:"output_paths"`
+	LegacyFiles []string     `json:"output_files,omitempty"`
+	LegacyDirs  []string     `json:"output_directories,omitempty"`
+	Format      string       `json:"format"`
+	Force       bool         `json:"force,omitempty"`
+	Backend     string       `json:"backend,omitempty"`
+	Initial     []string     `json:"input_root,omitempty"`
+	Produced    []string     `json:"produced,omitempty"`
+	Outcome     string       `json:"outcome,omitempty"`
+	IOError     bool         `json:"io_error_during_run,omitempty"`
+	Stdout      string       `json:"stdout,omitempty"`
+	Stderr      string       `json:"stderr,omitempty"`
+	ExitCode    int          `json:"exit_code,omitempty"`
+	DoNotCache  bool         `json:"do_not_cache,omitempty"`
+	Fault       *faultScript `json:"fault,omitempty"`
 }
 
 type commandInput struct {
@@ -482,22 +486,27 @@ func describeOutputs(ci *commandInput, rc *refCommand, root *node) (uf uploadFac
 
 // checkUpload runs UploadOutputs over dir (a view of root) and compares
 // the ActionResult and CAS contents with the model.
-func checkUpload(oh *builder.OutputHierarchy, ci *commandInput, rc *refCommand, root *node, dir builder.UploadableDirectory, cas *fakeCAS) (uploadFacts, error) {
-	var ar remoteexecution.ActionResult
-	uerr := oh.UploadOutputs(context.Background(), dir, cas, digestFunction, make(chan struct{}), &ar, ci.force)
+//
+// The upload goes through the handle-tracking wrapper (transparent without
+// a planned fault), which records the fallible calls made: clean reports
+// whether UploadOutputs returned no error.
+func checkUpload(oh *builder.OutputHierarchy, ci *commandInput, rc *refCommand, root *node, dir builder.BuildDirectory, cas *fakeCAS) (uf uploadFacts, trace []faultPoint, clean bool, err error) {
+	run := runUpload(oh, ci, dir, cas, -1, nil)
+	ar, uerr := &run.ar, run.err
+	trace, clean = run.plan.trace, uerr == nil
 
 	uf, errAllowed := describeOutputs(ci, rc, root)
 	if uerr != nil && !errAllowed {
-		return uf, fmt.Errorf("UploadOutputs failed although every declared output is a file, directory, symlink or absent: %v", uerr)
+		return uf, trace, clean, fmt.Errorf("UploadOutputs failed although every declared output is a file, directory, symlink or absent: %v", uerr)
 	}
 	if len(cas.corrupt) > 0 {
-		return uf, fmt.Errorf("blobs were stored under digests that do not match their contents: %v", cas.corrupt)
+		return uf, trace, clean, fmt.Errorf("blobs were stored under digests that do not match their contents: %v", cas.corrupt)
 	}
 	requireRDD := ci.format == remoteexecution.Command_DIRECTORY_ONLY || ci.format == remoteexecution.Command_TREE_AND_DIRECTORY
-	if err := checkActionResult(cas, &ar, root, ci.paths, rc.locs, requireRDD); err != nil {
-		return uf, err
+	if err := checkActionResult(cas, ar, root, ci.paths, rc.locs, requireRDD, nil); err != nil {
+		return uf, trace, clean, err
 	}
-	return uf, nil
+	return uf, trace, clean, nil
 }
 
 func (uf uploadFacts) labels() []string {
@@ -527,7 +536,7 @@ func (uf uploadFacts) labels() []string {
 	return l
 }
 
-const modelRule = "rapid: working directory and output_paths drawn from a grammar over {4 plain + 10 odd names, '.', '..', '', leading/trailing '/'} with aliases of earlier paths, exact duplicates, spellings of the input root, nesting and (1 case in 4) an escaping/absolute working directory or path; legacy output_files/output_directories only next to output_paths. Input root and produced tree are drawn into a hand-written in-memory BuildDirectory (files with exec bit, symlinks, FIFOs, directories whose subdirectories are copies of earlier ones, missing outputs, clobbered/removed parents, undeclared extras). Oracle: independent lexical normaliser; accept <=> no path escapes (INVALID_ARGUMENT otherwise); CreateParentDirectories adds exactly the missing dirname chains and touches nothing else; ActionResult == model keyed by verbatim declared string (kind, exec bit, symlink target up to POSIX equivalence, SHA-256 and bytes of the blob in the fake CAS); every Tree parsed from the CAS at wire level: root first, no duplicate, no missing and no unreferenced child, parents before children, expansion == model subtree. NON-TRIVIAL: accepted command with a '.', '..' or alias path AND a reported output directory containing a repeated identical subdirectory; distinct by script hash"
+const modelRule = "rapid: working directory and output_paths drawn from a grammar over {4 plain + 10 odd names, '.', '..', '', leading/trailing '/'} with aliases of earlier paths, exact duplicates, spellings of the input root, nesting and (1 case in 4) an escaping/absolute working directory or path; legacy output_files/output_directories only next to output_paths. Input root and produced tree are drawn into a hand-written in-memory BuildDirectory (files with exec bit, symlinks, FIFOs, directories whose subdirectories are copies of earlier ones, missing outputs, clobbered/removed parents, undeclared extras). Oracle: independent lexical normaliser; accept <=> no path escapes (INVALID_ARGUMENT otherwise); CreateParentDirectories adds exactly the missing dirname chains and touches nothing else; ActionResult == model keyed by verbatim declared string (kind, exec bit, symlink target up to POSIX equivalence, SHA-256 and bytes of the blob in the fake CAS); every Tree parsed from the CAS at wire level: root first, no duplicate, no missing and no unreferenced child, parents before children, expansion == model subtree. In 1 case in 3 the upload is repeated into an emptied CAS with one recorded call failing (CAS Put, Lstat, ReadDir, Readlink, Enter, UploadFile; gRPC status or errno drawn; a Put 1 time in 4 by cancelling the context instead): UploadOutputs must return an error, every digest listed must be in the CAS, and every output except the entry the fault hit is still listed exactly. NON-TRIVIAL: accepted command with a '.', '..' or alias path AND a reported output directory containing a repeated identical subdirectory; distinct by script hash"
 
 func TestC10OutputHierarchyModel(t *testing.T) {
 	rec := simkit.NewRecorder(t, "C10", "hierarchy_model", modelRule)
@@ -634,7 +643,7 @@ func runModelCase(rt *rapid.T, rec *simkit.Recorder, backend string, factory bac
 	// Phase 3: upload.
 	before := root.clone()
 	fs.mutations = nil
-	uf, err := checkUpload(oh, &ci, &rc, root, dir, cas)
+	uf, trace, cleanUpload, err := checkUpload(oh, &ci, &rc, root, dir, cas)
 	if err != nil {
 		rt.Fatalf("%v; script=%+v", err, sc)
 	}
@@ -655,6 +664,40 @@ func runModelCase(rt *rapid.T, rec *simkit.Recorder, backend string, factory bac
 	}
 	if fs.opened-1 != fs.closed && factory == nil {
 		rec.Label("diagnostic_directory_handle_leak")
+	}
+	// Phase 4 (1 case in 3): the same upload once more into an emptied CAS
+	// with one storage or directory call failing (or the context cancelled
+	// at a Put). The failure has to surface, nothing may be listed whose
+	// blobs are not in the CAS, and every output the fault did not hit is
+	// still listed exactly.
+	if cands := uploadFaultCandidates(trace); len(cands) > 0 && rapid.IntRange(0, 2).Draw(rt, "upload_fault") == 0 {
+		i := rapid.SampledFrom(cands).Draw(rt, "fault_position")
+		fault := &faultScript{Index: i, Point: trace[i].String(), Mode: "error"}
+		var ferr error
+		if trace[i].Kind == "cas.Put" && rapid.IntRange(0, 3).Draw(rt, "fault_is_cancellation") == 0 {
+			fault.Mode = "cancel"
+		} else {
+			ferr = drawFaultError(rt, trace[i].Kind)
+			fault.Error = ferr.Error()
+		}
+		sc.Fault = fault
+		cas.blobs, cas.puts, cas.corrupt, cas.refused = map[string][]byte{}, map[string]int{}, nil, 0
+		fs.mutations = nil
+		run := runUpload(oh, &ci, dir, cas, i, ferr)
+		if run.plan.hit == nil {
+			labels = append(labels, "upload_fault_not_reached")
+		} else {
+			if err := judgeFaultedUpload(run, &ci, &rc, root, cas, cleanUpload, factory == nil); err != nil {
+				rt.Fatalf("upload with an injected fault: %v; script=%+v", err, sc)
+			}
+			labels = append(labels, "upload_fault_"+fault.Mode, "upload_fault_at_"+run.plan.hit.Kind)
+			if n := len(run.ar.OutputFiles) + len(run.ar.OutputDirectories) + len(run.ar.OutputSymlinks); n > 0 {
+				labels = append(labels, "outputs_listed_despite_upload_fault")
+			}
+		}
+		if len(fs.mutations) > 0 || !equalTrees(before, root) {
+			rt.Fatalf("UploadOutputs (with an injected fault) modified the build directory: %v; script=%+v", fs.mutations, sc)
+		}
 	}
 	labels = append(labels, uf.labels()...)
 	if len(ci.legacyFiles)+len(ci.legacyDirs) > 0 {
